@@ -327,9 +327,12 @@ class K3State:
             nl = fresh(Ty('map', [STR, ANY]), 'E_local_after')
             ng = fresh(Ty('map', [STR, ANY]), 'G_after')
             kk = z3.String(fresh_name('kq'))
+            # (`error` is the exception: a tal:on-error element inside the child leaves it bound
+            # in the local layer after a handled failure)
             I.assume(z3.ForAll([kk], z3.Implies(z3.Not(gdef(kk)), z3.And(
-                z3.Select(nl.has, kk) == z3.Select(lo.has, kk),
-                z3.Select(nl.val, kk) == z3.Select(lo.val, kk),
+                z3.Or(kk == z3.StringVal('error'),
+                      z3.And(z3.Select(nl.has, kk) == z3.Select(lo.has, kk),
+                             z3.Select(nl.val, kk) == z3.Select(lo.val, kk))),
                 z3.Select(ng.has, kk) == z3.Select(gm.has, kk),
                 z3.Select(ng.val, kk) == z3.Select(gm.val, kk)))))
             I.assume(z3.ForAll([kk], z3.Implies(gdef(kk), z3.And(z3.Select(ng.has, kk),
@@ -681,6 +684,11 @@ def k3_prims():
         kk = _c(a[0])
         return VInt(len([1 for ev in I.ghost['T'] if ev[0] == 'hole' and ev[1] == kk]))
 
+    def holes_here(I, a, k, n):
+        """executions of the hole by THIS function (a macro body lives in another function of the
+        module; not observable from outside, so the concrete harness has no version of it)"""
+        return holes(I, a, k, n)
+
     def trace(I, a, k, n):
         """trace('e3','h1',...): the evaluations and hole executions happened exactly in this
         order (other event kinds are ignored)"""
@@ -779,7 +787,7 @@ def k3_prims():
     def scope_frame(I, a, k, n):
         """every name other than the listed ones, and other than names a hole defines globally,
         is bound exactly as at entry (both layers)"""
-        names = [_c(x) for x in a]
+        names = [_c(x) for x in a] + ['error']     # HoleC: a child may leave `error` bound
         lh, lv, rh, rv = I.ghost['E0']
         ec = I.ghost['econtext']
         lo, ro = ec.fields['local'], ec.fields['root']
@@ -967,7 +975,7 @@ def k3_prims():
              scope_frame, template_pos, template_rpos, token_now, ext_count, ext_token, ext_last, ext_raised, ext_callee, ext_result, ext_arg, ext_out, ext_i18n, is_stream,
              is_rcontext, is_scope_copy, scope_arg_visible, attr_of, module_function, globals_visible,
              in_local, translate_arg, translate_result, normalize, i18n0,
-             i18n_now, i18n_at, global_now, handler_calls, handler_configured,
+             holes_here, i18n_now, i18n_at, global_now, handler_calls, handler_configured,
              translate_calls, quote_calls, errorinfo_of, token_at_eval, token_pos)}
 
 
